@@ -26,3 +26,11 @@ size_t fx_loop_stuck(const uint8_t *buf, size_t buf_size) { size_t i = 0, n = 0;
 size_t fx_loop_ok(const uint8_t *buf, size_t buf_size) { size_t i = 0, n = 0; while (i < buf_size) { if (buf[i] == 0) { n ++; } i ++; } return (n); }
 int fx_tab_ok(uint8_t c) { static const uint8_t tbl[16] = {0}; return (tbl[c & 0x0f]); }
 int fx_tab_bad(uint8_t c) { static const uint8_t tbl[16] = {0}; return (tbl[c & 0x1f]); }
+void *mem_find_off(size_t off, const void *buf, size_t size, const void *what, size_t wsize);
+void *mem_find_ptr(const void *ptr, const void *buf, size_t size, const void *what, size_t wsize);
+int fx_find_ok(const uint8_t *buf, size_t buf_size, size_t offset) { const uint8_t *p, *end = buf + buf_size;
+  p = mem_find_off(offset, buf, buf_size, "\r\n", 2);
+  for (; NULL != p; ) { p += 2; p = mem_find_ptr(p, buf, buf_size, "\r\n", 2); if (NULL == p) break; if ((p + 2) >= end) break; if (9 == p[2]) continue; break; } return (0); }
+int fx_find_bad(const uint8_t *buf, size_t buf_size, size_t offset) { const uint8_t *p, *end = buf + buf_size;
+  p = mem_find_off(offset, buf, buf_size, "\r\n", 2);
+  for (; NULL != p; ) { p += 2; p = mem_find_ptr(p, buf, buf_size, "\r\n", 2); if (NULL == p) break; if ((p + 2) > end) break; if (9 == p[2]) continue; break; } return (0); }
